@@ -15,7 +15,19 @@ VERIF = os.path.dirname(HERE)
 sys.path.insert(0, VERIF)
 
 
+def pin_cpu():
+    """only one harness thread runs at a time (deterministic scheduler); hand-offs are ~10x cheaper when all threads
+    share one CPU.  TLC subprocesses get the full CPU set back (harness.tlc)."""
+    try:
+        allcpus = sorted(os.sched_getaffinity(0))
+        os.environ["VERIF_ALLCPUS"] = ",".join(map(str, allcpus))
+        os.sched_setaffinity(0, {allcpus[os.getpid() % len(allcpus)]})
+    except (AttributeError, OSError):
+        pass
+
+
 def main():
+    pin_cpu()
     ap = argparse.ArgumentParser()
     ap.add_argument("prop")
     ap.add_argument("--tier", default=os.environ.get("VERIF_TIER", "quick"), choices=["quick", "thorough"])
